@@ -24,6 +24,9 @@ WORLDS = {
              {'a': 'A', 'b1': 'B', 'b2': 'B', 'c': 'C'}),
     'diamond': ({'A': (), 'M': (), 'B': ('A',), 'C': ('A', 'M'), 'D': ('B', 'C')},
                 {'b1': 'B', 'd1': 'D', 'd2': 'D', 'c': 'C'}),
+    # B lists A both indirectly (through C) and directly
+    'redundant-base': ({'A': (), 'C': ('A',), 'B': ('C', 'A')},
+                       {'a': 'A', 'b1': 'B', 'b2': 'B', 'c': 'C'}),
 }
 
 
@@ -171,8 +174,10 @@ class World:
         self.K = {}
         for n, bs in cl_bases.items():
             mk = self.Meta if n == 'C' else type
+            # instances are *falsy* (empty containers): nothing may depend on
+            # the truth value of an object
             self.K[n] = mk(n, tuple(self.K[b] for b in bs) or (object,),
-                           {'__module__': wmod()})
+                           {'__module__': wmod(), '__len__': lambda self: 0})
         self.O = {o: self.K[k]() for o, k in objs.items()}
         self.L = Model(True, cl_bases, objs)
         self.U = Model(False, cl_bases, objs)
@@ -424,6 +429,7 @@ CFG = {
     'diamond': dict(world='diamond', sub='D', kill=['d1'], cls_subjects=['D']),
     # class declarations only, one level deeper: what a class keeps after its
     # bases were re-declared depends on the order of four or more declarations
+    'redundant-base': dict(world='redundant-base', sub='B', kill=['b1'], cls_subjects=['B']),
     'tree-classes': dict(world='tree', sub='B', kill=[], cls_subjects=[], extras=False,
                          focus=['A', 'B', 'b1']),
 }
@@ -436,10 +442,12 @@ def run(ctx):
     if ctx.tier == 'quick':
         plan = [('tree', 3, ['b2'], 1),
                 ('diamond', 2, ['D', 'd2'], 1),
+                ('redundant-base', 2, ['C', 'B', 'b2'], 1),
                 ('tree-classes', 4, None, 0)]
     else:
         plan = [('tree', 4, ['B', 'b2'], 1),
                 ('diamond', 3, ['C', 'D', 'd2'], 1),
+                ('redundant-base', 3, ['C', 'B', 'b2'], 1),
                 ('tree-classes', 5, None, 0)]
     if 'depth' in ctx.opts:
         plan = [(p[0], int(ctx.opts['depth']), p[2], int(ctx.opts.get('extra', p[3])))
